@@ -199,6 +199,8 @@ class RepeatedNodeWrapper(MutableSequence[_M]):
         if isinstance(index, int):
             assert not isinstance(value, Iterable)
             item = self._repeated.items[index]
+            if value is item:
+                return  # w[i] *= 2 assigns the element, modified in place, back to its own slot
             if index < 0:
                 index += len(self._repeated.items)
             self._repeated.token_store.splice(value.detach(), item.first_token, item.last_token)
